@@ -121,7 +121,7 @@ pub fn gen_modes(r: &mut StdRng, p: &Profile) -> Vec<RealMode> {
     let mut modes: Vec<RealMode> = vec![];
     for mi in 0..nm {
         let np = r.gen_range(p.min_pats..=p.max_pats);
-        let mut tts: Vec<usize> = (0..12).collect();
+        let mut tts: Vec<usize> = (0..15).collect();
         tts.shuffle(r);
         let mut pats = vec![];
         for k in 0..np {
